@@ -36,7 +36,7 @@ def correspond(ck, res, cf, hbin, tag, env=None):
 
 # level currently claimed per property (kept in step with tools/mkmanifest.py); "exploration" = the
 # property theorems are not finished yet: only the correspondence + judge decide
-LEVEL = {"C16": "exploration", "C17": "exploration", "C15": "exploration", "C11": "exploration", "C14": "exploration", "C09": "translation_validation", "C04": "exploration", "C05": "exploration", "C12": "exploration", "C13": "exploration"}
+LEVEL = {"C16": "exploration", "C17": "exploration", "C15": "exploration", "C14": "exploration", "C09": "translation_validation", "C04": "exploration", "C05": "exploration", "C12": "exploration", "C13": "exploration"}
 def level_of(pid):
     return LEVEL.get(pid, "proof")
 
